@@ -634,6 +634,19 @@ def punish (s : St) (a : Addr) (rewardee : Option Addr) : M St :=
 def punishProposal (s : St) (authOk : Bool) (a : Addr) (rewardee : Option Addr) : M St :=
   if !authOk then .error .unauthorized else punish s a rewardee
 
+/-- x/rollapp `msgServer.TransferOwnership`: unknown rollapp; signer is not the owner ⇒ unauthorized;
+    same owner ⇒ error; the new owner is an address the bank refuses as a recipient (`blockedAddr`: the
+    owner receives the rollapp's incentives, a failing payout would fail the whole block) ⇒ invalid
+    request; else `owner := newOwner` and nothing else. -/
+def transferOwner (s : St) (signer : Addr) (ra : Nat) (newOwner : Addr) : M St :=
+  match getRa s ra with
+  | none => .error .unknownRollapp
+  | some r =>
+    if r.owner != signer then .error .unauthorized else
+    if r.owner == newOwner then .error .invalid else
+    if blockedAddr newOwner then .error .invalid else
+    .ok (setRa s { r with owner := newOwner })
+
 /-- `MsgRollappFraudProposal` -/
 def fraud (s : St) (authOk : Bool) (ra h rev : Nat) (pun : Option Addr) (rewardee : Option Addr) : M St :=
   if !authOk then .error .unauthorized else
@@ -773,6 +786,7 @@ inductive Op
   | fraud (authOk : Bool) (ra h rev : Nat) (pun : Option Addr) (rewardee : Option Addr)
   | obsolete (authOk : Bool) (vs : List Nat)
   | punish (authOk : Bool) (a : Addr) (rewardee : Option Addr)
+  | transferOwner (signer : Addr) (ra : Nat) (newOwner : Addr)
   | begin_ (dt : Nat)
   | end_ (fails : List (Nat × Nat))
   deriving Repr, Inhabited
@@ -804,6 +818,7 @@ def apply (s : St) : Op → M St
   | .fraud au ra h rev p rw => fraud s au ra h rev p rw
   | .obsolete au vs => markObsolete s au vs
   | .punish au a rw => punishProposal s au a rw
+  | .transferOwner sg ra no => transferOwner s sg ra no
   | .begin_ dt => .ok (beginBlock s dt)
   | .end_ f => .ok (endBlock s f)
 
